@@ -180,6 +180,8 @@ def case_panel(rng, tier):
     c = Case({'obj': 'panel', 'panel': d})
     c.tag('obj:panel', 'model:' + model)
     p = gen.build_panel(d)
+    for k_ in gen.leftovers(rng, p):
+        c.tag('left:' + k_)
     num = 1 if model == 'plate_w' else 3
     size = num * d['m'] * d['n']
     # 40%: the field queries are the first thing ever asked of the object (post-processing of amplitudes obtained elsewhere)
